@@ -79,6 +79,19 @@ def handle (kind : String) (args : List String) (impl : String) : String :=
         | .err => "err"
         | .panic => "panic"
       finish impl m ascii
+  | "c11.reply", [_, shape, h] =>
+    match parseHex h with
+    | none => "bad-op"
+    | some v =>
+      -- a value that does not start with the whole six-byte header (magic, algorithm, CR LF) is not a frame:
+      -- it must come back unchanged; whatever the value, the request must be answered and nothing may panic
+      let hdr : Bytes := [40, 80, 36]
+      let isFrame := v.length ≥ 6 && v.take 3 == hdr && (v.drop 4).take 2 == [13, 10]
+      let plain := if shape == "b" then "replied b" ++ toHex v else "replied [b66,b" ++ toHex v ++ "]"
+      let d := if !isFrame && impl != plain then s!"DIFF model={plain} impl={impl}" else ""
+      let sp := if impl == "pending" then "request-never-answered" else specBad impl
+      let s := if sp == "" then "" else s!"SPEC {sp} impl={impl}"
+      if d == "" && s == "" then "ok" else d ++ (if d != "" && s != "" then " ; " else "") ++ s
   | "c11.scan", [v] =>
     -- same op as c18.step with 3 hosts and cursor "0"
     let r := C18.handle "c18.step" ["3", v, "30"] impl
